@@ -62,6 +62,54 @@ def systematicWith (s : α) (n : Nat) (w : List α) (u0 : α) : Option (List Nat
 def systematic (n : Nat) (w : List α) (u0 : α) : Option (List Nat) :=
   systematicWith (Sc.sum w) n w u0
 
+/-! ### `np.sum` on a contiguous float64 vector: numpy's pairwise summation
+
+    static npy_double pairwise_sum(a, n):
+        if n < 8:      res = 0.; for i in range(n): res += a[i]
+        elif n <= 128: r[0..7] = a[0..7]
+                       for i in range(8, n - n % 8, 8): r[k] += a[i+k]  (k = 0..7)
+                       res = ((r0+r1)+(r2+r3)) + ((r4+r5)+(r6+r7))
+                       for i in range(n - n % 8, n): res += a[i]
+        else:          n2 = n/2; n2 -= n2 % 8; return pairwise_sum(a, n2) + pairwise_sum(a+n2, n-n2)
+    and the reduction starts from the identity: `np.sum(a) = 0. + pairwise_sum(a, n)` (so `np.sum([-0.]*8) = +0.`).
+    Checked bit-for-bit against numpy by the correspondence (suite `np.sum`). -/
+
+/-- the unrolled loop: add successive chunks of 8 onto the 8 accumulators; explicit fuel -/
+def fold8 (r : List α) (rest : List α) : Nat → List α
+  | 0 => r
+  | fuel + 1 =>
+    if rest.length < 8 then r
+    else fold8 (List.zipWith Sc.add r (rest.take 8)) (rest.drop 8) fuel
+
+/-- `((r0+r1)+(r2+r3)) + ((r4+r5)+(r6+r7))` -/
+def tree8 (r : List α) : α :=
+  match r with
+  | [a, b, c, d, e, f, g, h] =>
+    Sc.add (Sc.add (Sc.add a b) (Sc.add c d)) (Sc.add (Sc.add e f) (Sc.add g h))
+  | _ => r.foldl Sc.add Sc.zero          -- not reachable: there are always exactly 8 accumulators
+
+/-- a block of `8 ≤ n ≤ 128` elements -/
+def pwBlock (l : List α) : α :=
+  let m := l.length - l.length % 8
+  let r := fold8 (l.take 8) ((l.take m).drop 8) l.length
+  (l.drop m).foldl Sc.add (tree8 r)
+
+def pairwiseSum : Nat → List α → α
+  | 0, l => l.foldl Sc.add Sc.zero       -- fuel exhausted (not reachable with fuel = length)
+  | fuel + 1, l =>
+    if l.length < 8 then l.foldl Sc.add Sc.zero
+    else if l.length ≤ 128 then pwBlock l
+    else
+      let n2 := l.length / 2 - (l.length / 2) % 8
+      Sc.add (pairwiseSum fuel (l.take n2)) (pairwiseSum fuel (l.drop n2))
+
+/-- `np.sum(w)` -/
+def npSum (w : List α) : α := Sc.add Sc.zero (pairwiseSum w.length w)
+
+/-- `systematic_resample` with nothing passed in: `np.sum` is the pairwise sum above -/
+def systematicNp (n : Nat) (w : List α) (u0 : α) : Option (List Nat) :=
+  systematicWith (npSum w) n w u0
+
 /-! ### multinomial: numpy legacy `choice(p=…)` -/
 
 def cumsumFrom (acc : α) : List α → List α
@@ -86,5 +134,42 @@ def normCdf (w : List α) : Option (List α) :=
 /-- indices drawn for the uniforms `us` -/
 def multinomial (w : List α) (us : List α) : Option (List Nat) :=
   (normCdf w).map fun cdf => us.map (searchsortedRight cdf)
+
+/-! ### the callers: `Resampler.run` (steps/resample.py) and `compute_posterior(resample=True)` (core.py)
+
+      beta = self.state.get_current("beta")
+      if beta == 0.0: …set assignments to zeros…; return                       -- warm-up: nothing is resampled
+      if self.resample == "mult":   idx = np.random.choice(np.arange(len(weights)), size=self.n_particles, replace=True, p=weights)
+      elif self.resample == "syst": idx = systematic_resample(self.n_particles, weights=weights)
+      u[idx], x[idx], logl[idx], blobs[idx]                                    -- the gather is C07's
+    Any other scheme string leaves `idx_resampled` unbound (UnboundLocalError; excluded by config validation, C18).
+
+      idx = systematic_resample(len(weights), weights)                         -- compute_posterior, resample branch
+-/
+inductive Scheme where
+  | mult | syst | other
+  deriving DecidableEq, Repr
+
+inductive RunResult where
+  | skipped                         -- beta = 0
+  | indices (idx : List Nat)
+  | indexError | valueError | unbound
+  deriving DecidableEq, Repr
+
+/-- the index vector `Resampler.run` gathers with; `us` = the uniforms numpy's generator hands to `choice` -/
+def resamplerRun (betaIsZero : Bool) (scheme : Scheme) (nParticles : Nat) (w : List α) (u0 : α) (us : List α) :
+    RunResult :=
+  if betaIsZero then .skipped else
+  match scheme with
+  | .mult => match multinomial w us with
+    | some idx => .indices idx
+    | none => .valueError
+  | .syst => match systematicNp nParticles w u0 with
+    | some idx => .indices idx
+    | none => .indexError
+  | .other => .unbound
+
+/-- the index vector of `compute_posterior(resample=True)` -/
+def posteriorResample (w : List α) (u0 : α) : Option (List Nat) := systematicNp w.length w u0
 
 end Model.Resample
